@@ -1,6 +1,7 @@
-// Verification stub for rcproxy/core/pkg/logging/logger.go: same API, captures
-// Info/Warn/Error lines only when Capture is on (replays), never evaluates Debug closures
-// (like a production INFO level).
+// Verification stub for rcproxy/core/pkg/logging/logger.go: same API. Info/Warn/Error lines are always formatted (as the
+// production logger does; a formatting fault is a fault of the proxy) and kept only when Capture is on (replays). Debug
+// lines and Debug closures are evaluated only when DebugOn is set (a scenario that models log level "debug"); otherwise
+// they are skipped like at the production INFO level.
 package logging
 
 import "fmt"
@@ -8,6 +9,7 @@ import "fmt"
 var logObj *logger = nil
 
 var (
+	DebugOn bool
 	Capture bool
 	Lines   []string
 	// Counters by level, always maintained (cheap): lets oracles see "an error was logged".
@@ -17,30 +19,35 @@ var (
 func VerifResetLog() { Lines = Lines[:0]; NWarn, NError = 0, 0 }
 
 func add(l, f string, v ...interface{}) {
+	line := fmt.Sprintf(f, v...)
 	if Capture {
-		Lines = append(Lines, l+" "+fmt.Sprintf(f, v...))
+		Lines = append(Lines, l+" "+line)
 	}
 }
-func Debug(v ...interface{})                 {}
-func Debugf(format string, v ...interface{}) {}
-func Debugfunc(f func() string)              {}
-func Info(v ...interface{}) {
-	if Capture {
-		add("I", "%s", fmt.Sprint(v...))
+func Debug(v ...interface{}) {
+	if DebugOn {
+		_ = fmt.Sprint(v...)
 	}
 }
+func Debugf(format string, v ...interface{}) {
+	if DebugOn {
+		_ = fmt.Sprintf(format, v...)
+	}
+}
+func Debugfunc(f func() string) {
+	if DebugOn {
+		_ = f()
+	}
+}
+func Info(v ...interface{})                 { add("I", "%s", fmt.Sprint(v...)) }
 func Infof(format string, v ...interface{}) { add("I", format, v...) }
 func Warn(v ...interface{}) {
 	NWarn++
-	if Capture {
-		add("W", "%s", fmt.Sprint(v...))
-	}
+	add("W", "%s", fmt.Sprint(v...))
 }
 func Warnf(format string, v ...interface{}) { NWarn++; add("W", format, v...) }
 func Error(v ...interface{}) {
 	NError++
-	if Capture {
-		add("E", "%s", fmt.Sprint(v...))
-	}
+	add("E", "%s", fmt.Sprint(v...))
 }
 func Errorf(format string, v ...interface{}) { NError++; add("E", format, v...) }
